@@ -5,6 +5,7 @@ import CogentModel.Proofs.CsvRoundtrip
 import CogentModel.Proofs.TableOpsLemmas
 import CogentModel.Proofs.TableNamed
 import CogentModel.Proofs.CastStr
+import CogentModel.Proofs.TableArgs
 /-! # C20 — property theorems
 
 Tables follow the list-of-rows model (`rowsOf` is the abstraction from the column store to the list
@@ -444,5 +445,103 @@ theorem result_index_is_usable (idx : Option String) (header : List String) (col
   observe_keepIndex_ok idx header cols title hw hn
 
 example : keepIndexIfUnique (some "k") ["k"] [[.str "a", .str "a"]] = none := by decide
+
+/-! ## argument resolution, TRANSLATED from the source text (`Gen/C20Args.lean`, rewritten from cogent3's current
+`util/table.py` by `translator/c20_args2lean.py` on every run)
+
+`TableArgs.PV` = None | one name | list | tuple of names.  The generated definitions are the statements of
+`Table.sorted` / `Table.inner_join` up to the point where the key columns are fixed, and the whole of `Table.joined`. -/
+section Args
+open CogentModel.TableArgs CogentModel.Gen
+
+/-- `Table.sorted`: for ALL headers, keyword names and `columns` / `reverse` arguments (None, a name, a list, a tuple)
+the translated statements compute the hand model `sortArgs` (TypeError for the keyword `reversed`) -/
+theorem sorted_args_translated (header kwargs : List String) (columns reverse : PV) :
+    C20Args.sortedColumns header kwargs columns reverse =
+      if kwargs.contains "reversed" then .error "TypeError"
+      else .ok (PV.list (sortArgs header columns reverse).1, (sortArgs header columns reverse).2) :=
+  gen_sortedColumns_eq header kwargs columns reverse
+
+example : C20Args.sortedColumns ["s", "n", "x"] [] (.str "n") (.tup ["s"]) = .ok (.list ["n", "s"], .tup ["s"]) := by rfl
+example : C20Args.sortedColumns ["s", "n", "x"] ["reversed"] .none .none = .error "TypeError" := by rfl
+
+/-- … and `sortArgs` is the column-list logic `sortColumns` of the table model (the one `named_sorted_order` is
+about) on the normalised arguments, for every `reverse` that names no column twice, except `columns=None` with the
+empty tuple -/
+theorem sort_args_are_sort_columns (header : List String) (columns reverse : PV)
+    (hn : ((reverse.names?).getD []).Nodup) (ht : ¬ (columns = .none ∧ reverse = .tup [])) :
+    (sortArgs header columns reverse).1 = sortColumns header columns.names? ((reverse.names?).getD []) :=
+  sortArgs_eq_sortColumns header columns reverse hn ht
+
+example : ((PV.tup ["s", "n"]).names?.getD []).Nodup ∧ ¬ (PV.str "n" = .none ∧ PV.tup ["s", "n"] = .tup []) := by decide
+
+/-- the excluded corner on the code: `sorted(reverse=())` ends with NO key column (`() != []`), where `reverse=[]`
+sorts by all columns; a repeated name in `reverse` is appended once by the loop (twice by `sortColumns`) -/
+theorem sort_args_empty_tuple_counter :
+    (sortArgs ["a", "b"] .none (.tup [])).1 = [] ∧ sortColumns ["a", "b"] none [] = ["a", "b"] ∧
+    (sortArgs ["a", "b"] (.list ["b"]) (.list ["a", "a"])).1 = ["b", "a"] ∧
+    sortColumns ["a", "b"] (some ["b"]) ["a", "a"] = ["b", "a", "a"] := by decide
+
+/-- `Table.inner_join`: for ALL argument forms the translated statements resolve the key columns and `output_mask`
+exactly as the hand model `joinKeysH` (compared on the names; same exception) -/
+theorem join_keys_translated (sc oc : List String) (si oi : Option String) (cs co : PV) (ui : Bool) :
+    (C20Args.joinKeys sc oc si oi cs co ui).map (fun r => (r.1.iter, r.2.1.iter, r.2.2))
+      = joinKeysH sc oc si oi cs co ui :=
+  gen_joinKeys_eq sc oc si oi cs co ui
+
+example : C20Args.joinKeys ["k", "a"] ["b", "k"] none none (.str "k") .none true
+    = .ok (.list ["k"], .list ["k"], ["b"]) := by rfl
+
+/-- what `joinKeysH` decides, case by case: (1) no columns, `use_index=False` (what `joined` passes): the natural
+join keys `naturalKeys` of the table model — the shared names in `self`'s order, for both tables; (2) no columns,
+`use_index=True`: the two index columns; (3) only one side given: the same labels for both tables; (4) both given:
+as given, RuntimeError when the dimensions differ.  In every case `output_mask` = the columns of other that are not
+key columns. -/
+theorem join_keys_cases (sc oc : List String) (si oi : Option String) (ui : Bool) :
+    (joinKeysH sc oc si oi .none .none false
+        = .ok ((Table.naturalKeys { header := sc, cols := [] } { header := oc, cols := [] }).1,
+               (Table.naturalKeys { header := sc, cols := [] } { header := oc, cols := [] }).2,
+               oc.filter fun c => !(sc.filter (oc.contains ·)).contains c)) ∧
+    (∀ a b, a ≠ "" → b ≠ "" →
+      joinKeysH sc oc (some a) (some b) .none .none true = .ok ([a], [b], oc.filter fun c => !([b] : List String).contains c)) ∧
+    (si = none ∨ oi = none → joinKeysH sc oc si oi .none .none true = .error "ValueError") ∧
+    (∀ co o, co.names? = some o →
+      joinKeysH sc oc si oi .none co ui = .ok (o, o, oc.filter fun c => !o.contains c)) ∧
+    (∀ cs s, cs.names? = some s → s ≠ [] →
+      joinKeysH sc oc si oi cs .none ui = .ok (s, s, oc.filter fun c => !s.contains c)) ∧
+    (∀ cs co s o, cs.names? = some s → co.names? = some o →
+      joinKeysH sc oc si oi cs co ui =
+        if s.length = o.length then .ok (s, o, oc.filter fun c => !o.contains c) else .error "RuntimeError") := by
+  refine ⟨?_, ?_, ?_, ?_, ?_, ?_⟩
+  · simp [joinKeysH, PV.names?, Table.naturalKeys]
+  · intro a b ha hb; simp [joinKeysH, PV.names?, ha, hb]
+  · intro h
+    cases si <;> cases oi <;> simp_all [joinKeysH, PV.names?]
+  · intro co o h
+    have e : (PV.none).names? = none := rfl
+    simp [joinKeysH, h, e]
+  · intro cs s h hs
+    have e : (PV.none).names? = none := rfl
+    simp [joinKeysH, h, e, hs]
+  · intro cs co s o h1 h2; simp only [joinKeysH, h1, h2]; split <;> simp_all
+
+example : (PV.tup ["k", "n"]).names? = some ["k", "n"] ∧ (PV.str "k").names? = some ["k"] := by decide
+
+/-- the asymmetry of the code, mirrored: an EMPTY `columns_self` alone raises TypeError (`len(None)`), an empty
+`columns_other` alone joins on the empty key (every row of self with every row of other) -/
+theorem join_keys_empty_side_counter :
+    joinKeysH ["a"] ["b"] none none (.list []) .none false = .error "TypeError" ∧
+    joinKeysH ["a"] ["b"] none none .none (.list []) false = .ok ([], [], ["b"]) := ⟨by rfl, by rfl⟩
+
+/-- `Table.joined` forwards to `inner_join(use_index=False)` with its columns and prefix, or — `inner_join=False`
+— to `cross_join` WITHOUT the prefix, AssertionError if columns were given; translated = hand model -/
+theorem joined_call_translated (cs co : PV) (ij : Bool) (p : String) :
+    C20Args.joinedCall cs co ij p = joinedCallH cs co ij p :=
+  gen_joinedCall_eq cs co ij p
+
+example : C20Args.joinedCall .none .none false "x_" = .ok { name := "cross_join", pos := [.other], kw := [("**", .kwargs)] } := by
+  rfl
+
+end Args
 
 end CogentModel.C20
